@@ -13,6 +13,22 @@ adjacent to CR / LF / the end-of-data line, cut pairs around each body, seeded r
 must reproduce the same reply bytes and the same trace.  All runs end the same way: a read when
 the stream is exhausted returns b'' (ScriptSocket(eof=True)).
 
+Strata added by the coverage audit (all judged by the same oracle):
+  limit sweep     short bodies x EVERY value of the SIZE limit from 1 to two past the wire size, so that the
+                  byte at which the limit is crossed takes every position relative to the lines (mid-line, between
+                  CR and LF, after a line, after the stuffing dot, inside the end-of-data line, exactly at its end)
+                  and, through cuts at / next to that byte and all cut pairs over a short body, relative to the
+                  recv() boundaries; random sessions draw their limit around the size of one of their bodies.
+  hostile lines   command lines other than the well-formed ones: NUL, 8-bit (valid and invalid UTF-8), lower
+                  case, blanks, bare LF / CR CR LF / CR inside, empty lines, missing or malformed arguments
+                  (incl. the ones that make the server raise), a lone dot as a command, unknown commands, lines
+                  longer than the 4096-byte recv size; placed before a transaction, inside it and directly behind
+                  an end-of-data line.
+  open tail       the stream ends inside a line (no LF): every run must answer the same and lose the connection.
+  handler close   the handler object ends the session itself (421 to RCPT, 421 to the message, an exception)
+                  with more pipelined bytes behind.
+  big body        a body larger than the recv size (a "burst" is then several recv() results).
+
 Events that refute: concatenated reply bytes differ; callback trace differs.
 """
 import re
@@ -26,8 +42,11 @@ from slimta.smtp import ConnectionLost
 PROPERTY = 'C09'
 LEVEL = 'exploration'
 LEVEL_TEXT = ('Real Server + IO + DataReader on a scripted socket with a recording handler object. A designed '
-              'grid (body kind x transaction layout x {no SIZE limit, SIZE=64}) plus seeded random sessions of '
-              '1-3 transactions; each stream is run once stop-and-wait (reference) and then under ~100-200 other '
+              'grid (body kind x transaction layout x {no SIZE limit, SIZE=64}), a sweep of the SIZE limit over '
+              'every value around short bodies, a catalogue of hostile command lines (NUL, 8-bit, over-long, '
+              'malformed, bare LF) at three positions, unterminated stream tails, handler-closed sessions, bodies '
+              'larger than the recv size, plus seeded random sessions of 1-3 transactions mixing all of these; '
+              'each stream is run once stop-and-wait (reference) and then under ~100-500 other '
               'segmentations; reply bytes and callback trace (with message content) compared exactly on every '
               'run. Held = held on the streams x segmentations reported, not a proof for other streams.')
 LEVEL_NOTE = ('Trusted: ScriptSocket, the unit-feeding rule of the reference run (~25 lines), the recording '
@@ -38,6 +57,9 @@ RULE = ('case = one client byte stream (EHLO|HELO, 1-3 transactions MAIL/RCPT+/D
         'lone/double dots, dot-space, bare LF, unstuffed early end-of-data, at / 1 over / far over the limit) '
         'or seeded random line mixes; refusals (MAIL 550, RCPT 550, all RCPT refused -> DATA 503, DATA 554, '
         'MAIL SIZE= too large) are scripted by address. First a designed grid, then seeded random sessions. '
+        'Audit strata: SIZE limit swept over 1..wire+2 for short bodies (cuts at the limit byte, all cut pairs over '
+        'the body); hostile command lines before / inside / directly behind a transaction; stream ending inside a '
+        'line; handler closing the session; body > 4096 bytes. '
         'Each case = 1 reference run + every segmentation listed in the module docstring (each one evaluation). '
         'non-trivial & distinct = distinct (limit, stream) whose stream has >= 1 body that is empty, over the '
         'limit, or has a command-looking or dot-leading line, AND >= 1 command after a body')
@@ -48,13 +70,19 @@ ASSUMPTIONS = ['ScriptSocket hands out exactly the scripted segments and reports
                'handler refusals are a function of callback arguments (addresses), never of call ordinals']
 REQUIRED_HITS = ['reference-run', 'replies-compared', 'trace-compared', 'ref-message-too-big',
                  'ref-refused-data-body-fed-as-lines', 'ref-empty-message-delivered',
-                 'ref-command-after-body']
-SHARDS = {'quick': 8, 'thorough': 16}
-BUDGET = {'quick': 45, 'thorough': 700}
+                 'ref-command-after-body',
+                 # audit strata: each must really have been observed in the reference run
+                 'ref-limit-crossed/mid-line', 'ref-limit-crossed/between-cr-and-lf', 'ref-limit-crossed/after-line',
+                 'ref-limit-crossed/in-eod-line', 'ref-limit-exactly-at-end-of-eod',
+                 'ref-hostile-line-consumed', 'ref-hostile-line-directly-behind-eod', 'ref-end/exception',
+                 'ref-open-tail', 'ref-stream-ends-inside-message', 'ref-session-ended-before-stream-end', 'ref-session-closed-by-handler-421',
+                 'ref-session-closed-by-handler-exception', 'ref-unit-larger-than-recv-size']
+SHARDS = {'quick': 16, 'thorough': 16}
+BUDGET = {'quick': 60, 'thorough': 800}
 EXHAUSTIVE = {'quick': False, 'thorough': False}
 
 LIMIT = 64
-NRANDOM_STREAMS = {'quick': 1000, 'thorough': 40000}
+NRANDOM_STREAMS = {'quick': 1500, 'thorough': 60000}
 NRANDOM_CUTS = 30
 
 # Mechanisms (root causes) the classifier knows; everything else is 'unclassified/<stratum>/<oracle clause>'.
@@ -129,6 +157,10 @@ def txn(n, sender, rcpts, kind_or_bytes, post=()):
     units = []
     if sender == 'sz':
         units.append(['c', b'MAIL FROM:<s%d@x> SIZE=100\r\n' % n])
+    elif sender == 'szs':       # declares less than it sends
+        units.append(['c', b'MAIL FROM:<s%d@x> SIZE=10\r\n' % n])
+    elif sender == 'szbad':
+        units.append(['c', b'MAIL FROM:<s%d@x> SIZE=1x0\r\n' % n])
     else:
         units.append(['c', b'MAIL FROM:<%s%d@x>\r\n' % (sender.encode(), n)])
     for j, r in enumerate(rcpts):
@@ -169,6 +201,133 @@ def designed(kind, layout):
     return u
 
 
+# ---- audit strata ------------------------------------------------------------------------------------------
+
+# short bodies for the limit sweep (wire bytes without the end-of-data line)
+SWEEP_BODIES = {
+    'sw-dots': stuff(b'ab\r\n.c\r\n.\r\n'),              # stuffed lines, a stuffed lone dot
+    'sw-fullstop': stuff(b'x.\r\nRSET\r\ny.\r\n'),          # lines ending in ".", a command-looking line
+    'sw-barelf': stuff(b'a\n.b\nNOOP\r\n'),                 # bare LF line ends
+    'sw-one-line': b'0123456789\r\n',
+    'sw-many-dots': stuff(b'.a\r\n' * 6),                       # many stuffed lines
+    'sw-empty': b'',
+}
+
+# name -> one command line (LF-terminated): everything but a well-formed command
+HOSTILE = {
+    'nul': b'\x00\r\n',
+    'nul-in-verb': b'NO\x00OP\r\n',
+    'nul-arg': b'NOOP a\x00b\r\n',
+    '8bit-garbage': b'\xff\xfe\x80\r\n',
+    'ehlo-bad-utf8': b'EHLO \xff\xfe\r\n',                # server raises UnicodeDecodeError after a 501
+    'mail-bad-utf8': b'MAIL FROM:<\xff@x>\r\n',
+    'rcpt-bad-utf8': b'RCPT TO:<\xc3@x>\r\n',
+    'mail-utf8': b'MAIL FROM:<\xc3\xa9@x> SMTPUTF8\r\n',
+    'vrfy-8bit': b'VRFY \xe9\xe8\r\n',
+    'lower': b'noop\r\n',
+    'mixed-blanks': b'NoOp   \t \r\n',
+    'leading-blank': b' NOOP\r\n',
+    'bare-lf': b'NOOP\n',
+    'cr-cr-lf': b'NOOP\r\r\n',
+    'cr-inside': b'NOOP\rQUIT\r\n',
+    'empty-line': b'\r\n',
+    'empty-lf': b'\n',
+    'blank-line': b'   \r\n',
+    'lone-dot': b'.\r\n',
+    'dot-dot': b'..\r\n',
+    'digits': b'354 go ahead\r\n',
+    'rset-arg': b'RSET now\r\n',
+    'data-arg': b'DATA now\r\n',
+    'quit-arg': b'QUIT now\r\n',
+    'mail-no-arg': b'MAIL\r\n',                            # server raises (argument is None)
+    'rcpt-no-arg': b'RCPT\r\n',
+    'mail-no-angle': b'MAIL FROM:s@x\r\n',
+    'mail-unclosed': b'MAIL FROM:<s@x\r\n',
+    'mail-quoted': b'MAIL FROM:<"a>b"@x> BODY=8BITMIME\r\n',
+    'rcpt-param': b'RCPT TO:<r9-9@x> ORCPT=rfc822;a@x NOTIFY=NEVER\r\n',
+    'ehlo-again': b'EHLO again\r\n',
+    'helo-again': b'HELO again\r\n',
+    'ehlo-no-arg': b'EHLO\r\n',
+    'helo-no-arg': b'HELO\r\n',
+    'rcpt-no-angle': b'RCPT TO:r@x\r\n',
+    'rcpt-unclosed': b'RCPT TO:<r@x\r\n',
+    'unknown': b'XYZZY plugh\r\n',
+    'starttls': b'STARTTLS\r\n',
+    'auth': b'AUTH PLAIN AGEAYg==\r\n',
+    'help': b'HELP\r\n',
+    'long-noop': b'NOOP ' + b'x' * 1200 + b'\r\n',
+    'long-over-recv': b'NOOP ' + b'y' * 4200 + b'\r\n',                 # longer than one recv(4096)
+    'long-mail': b'MAIL FROM:<' + b'a' * 4300 + b'@x>\r\n',
+    'long-garbage': b'\x01' * 5000 + b'\r\n',
+    'long-8bit': b'RCPT TO:<' + b'\xc3\xa9' * 2100 + b'@x>\r\n',
+}
+HOSTILE_NAMES = sorted(HOSTILE)
+HOSTILE_SHORT = [k for k in HOSTILE_NAMES if len(HOSTILE[k]) < 100]
+
+# the stream ends inside a line
+OPEN_TAILS = [b'QUIT', b'QUIT\r', b'NOO', b'MAIL FROM:<s9@x>', b'.', b'.\r', b'\x00', b'DATA\r', b' ']
+
+AUDIT_BODIES = dict(SWEEP_BODIES)
+AUDIT_BODIES['big-6k'] = b''.join(b'%03d ' % i + bytes([65 + i % 26]) * 44 + b'\r\n' for i in range(120))
+AUDIT_BODIES['big-dots'] = stuff(b''.join(b'.%03d' % i + b'.' * 40 + b'\r\n' for i in range(110)))
+
+
+def audit_designed():
+    """Yield (stratum, limit, kinds, layout, units)."""
+    E = [['c', b'EHLO c\r\n']]
+    Q = [['c', b'QUIT\r\n']]
+    # --- limit sweep
+    for name in sorted(SWEEP_BODIES):
+        wire = len(SWEEP_BODIES[name]) + len(EOD)
+        for limit in range(1, wire + 3):
+            yield ('limit-sweep', limit, [name], 'sweep-noop-quit',
+                   E + txn(0, 's', ['r'], SWEEP_BODIES[name], [b'NOOP']) + Q)
+            yield ('limit-sweep', limit, [name], 'sweep-then-txn',
+                   E + txn(0, 's', ['r'], SWEEP_BODIES[name]) + txn(1, 's', ['r', 'r'], b'ok\r\n') + Q)
+    # --- hostile lines: before the transaction, inside it, directly behind the end-of-data line
+    for name in HOSTILE_NAMES:
+        h = ['c', HOSTILE[name]]
+        for kind in ('cmds', 'empty'):
+            t = txn(0, 's', ['r'], kind)
+            yield ('hostile', None, [kind], 'hostile:' + name,
+                   E + [h] + t[:2] + [h] + t[2:] + [h, ['c', b'NOOP\r\n']] + txn(1, 's', ['r'], 'plain') + Q)
+        yield ('hostile', LIMIT, ['over-cmds'], 'hostile:' + name,
+               E + txn(0, 's', ['r'], 'over-cmds') + [h, ['c', b'NOOP\r\n']] + Q)
+    # --- the stream ends inside a line
+    for tail in OPEN_TAILS:
+        yield ('open-tail', None, ['cmds'], 'open-tail', E + txn(0, 's', ['r'], 'cmds') + [['c', tail]])
+        yield ('open-tail', LIMIT, ['over-cmds'], 'open-tail',
+               E + txn(0, 's', ['r'], 'over-cmds', [b'NOOP']) + [['c', tail]])
+        yield ('open-tail', None, [], 'open-tail-no-body', E + [['c', b'NOOP\r\n'], ['c', tail]])
+    # ... or inside a message (no end-of-data line ever arrives)
+    for limit in (None, LIMIT):
+        for part in (b'', b'Subject: x\r\n\r\nhalf a li', b'line\r\n', b'line\r\n.', b'line\r\n.\r', b'..',
+                     b'MAIL FROM:<evil@x>\r\nQUIT\r\n' * 3 + b'QUIT\r'):
+            yield ('open-tail', limit, ['open-body'], 'open-body',
+                   E + txn(0, 's', ['r'], 'plain', [b'NOOP']) + txn(1, 's', ['r'], b'')[:-1] + [['b', part]])
+    # --- commands before any EHLO
+    yield ('hostile', None, ['plain'], 'no-ehlo', [['c', b'MAIL FROM:<s0@x>\r\n'], ['c', b'RCPT TO:<r0@x>\r\n'],
+                                                   ['c', b'DATA\r\n'], ['c', b'NOOP\r\n']] + E +
+           txn(0, 's', ['r'], 'plain') + Q)
+    # --- the handler ends the session with more bytes pipelined behind
+    for kind in ('plain', 'empty', 'cmds'):
+        rest = txn(1, 's', ['r'], kind) + Q
+        yield ('handler-close', None, [kind], 'rcpt-421', E + txn(0, 's', ['r', 'die', 'r'], kind) + rest)
+        yield ('handler-close', None, [kind], 'mail-raises', E + txn(0, 'boom', ['r'], kind) + rest)
+        yield ('handler-close', None, [kind], 'message-421', E + txn(0, 'bye', ['r'], kind, [b'NOOP']) + rest)
+        yield ('handler-close', LIMIT, [kind], 'message-421', E + txn(0, 'bye', ['r'], kind, [b'NOOP']) + rest)
+    # --- MAIL SIZE= shapes
+    for limit in (None, LIMIT):
+        for snd in ('sz', 'szs', 'szbad'):
+            for kind in ('half', 'over-by-1'):
+                yield ('mail-size', limit, [kind], 'mail-' + snd, E + txn(0, snd, ['r'], kind, [b'NOOP']) + Q)
+    # --- bodies larger than one recv()
+    for kind in ('big-6k', 'big-dots'):
+        for limit in (None, LIMIT, 4500):
+            yield ('big-body', limit, [kind], 'big-noop-quit',
+                   E + txn(0, 's', ['r'], AUDIT_BODIES[kind], [b'NOOP']) + txn(1, 's', ['r'], 'plain') + Q)
+
+
 RAND_LINES = [b'x', b'hello world', b'', b'.', b'..', b'. ', b'.x', b'QUIT', b'RSET', b'NOOP', b'DATA',
               b'MAIL FROM:<evil@x>', b'RCPT TO:<evil@x>', b'Subject: s', b'z' * 20, b'z' * 40, b'w' * 70]
 
@@ -183,15 +342,25 @@ def random_body(rnd):
     return body if rnd.random() < 0.12 else stuff(body)      # sometimes unstuffed (adversarial)
 
 
-def random_stream(rnd):
+def random_stream(rnd, audit=False):
+    """audit=False: well-formed command lines, sessions run to their end (the original random stratum);
+    audit=True: additionally hostile lines, open tails, handler-closed sessions, MAIL SIZE= shapes."""
     u = [['c', b'HELO c\r\n' if rnd.random() < 0.06 else b'EHLO c\r\n']]
     kinds = []
     for n in range(rnd.randrange(1, 4)):
-        sender = rnd.choice(['s'] * 10 + ['nodata', 'nodata', 'nomail', 'sz'])
-        rcpts = [rnd.choice(['r', 'r', 'r', 'bad']) for _ in range(rnd.randrange(1, 4))]
-        if rnd.random() < 0.6:
+        if audit:
+            sender = rnd.choice(['s'] * 30 + ['nodata'] * 6 + ['nomail'] * 3 + ['sz', 'sz', 'szs', 'szs', 'szbad',
+                                              'bye', 'boom'])
+            rcpts = [rnd.choice(['r'] * 30 + ['bad'] * 9 + ['die']) for _ in range(rnd.randrange(1, 4))]
+        else:
+            sender = rnd.choice(['s'] * 10 + ['nodata', 'nodata', 'nomail', 'sz'])
+            rcpts = [rnd.choice(['r', 'r', 'r', 'bad']) for _ in range(rnd.randrange(1, 4))]
+        if rnd.random() < (0.5 if audit else 0.6):
             k = rnd.choice(BODY_KINDS)
             kinds.append(k)
+        elif audit and rnd.random() < 0.3:
+            kinds.append(rnd.choice(sorted(SWEEP_BODIES)))
+            k = SWEEP_BODIES[kinds[-1]]
         else:
             k = random_body(rnd)
             kinds.append('random')
@@ -199,6 +368,17 @@ def random_stream(rnd):
         u += txn(n, sender, rcpts, k, post)
     if rnd.random() < 0.8:
         u.append(['c', b'QUIT\r\n'])
+    if not audit:
+        return u, kinds
+    # hostile command lines anywhere but between a DATA command and its body
+    if rnd.random() < 0.7:
+        for _ in range(rnd.randrange(1, 4)):
+            at = rnd.randrange(1, len(u) + 1)
+            if at < len(u) and u[at][0] == 'b':
+                at += 1
+            u.insert(at, ['c', HOSTILE[rnd.choice(HOSTILE_SHORT if rnd.random() < 0.93 else HOSTILE_NAMES)]])
+    if rnd.random() < 0.1:
+        u.append(['c', rnd.choice(OPEN_TAILS)])
     return u, kinds
 
 
@@ -211,10 +391,20 @@ def gen_cases(tier, seed, shard, nshards):
                     yield {'origin': 'designed', 'limit': limit, 'kinds': [kind], 'layout': layout,
                            'units': designed(kind, layout), 'rs': 1000 + n, 'nrand': NRANDOM_CUTS}
                 n += 1
+    for stratum, limit, kinds, layout, units in audit_designed():
+        if n % nshards == shard:
+            yield {'origin': stratum, 'limit': limit, 'kinds': kinds, 'layout': layout, 'units': units,
+                   'rs': 5000 + n, 'nrand': NRANDOM_CUTS}
+        n += 1
     rnd = random.Random('c09-%d-%d' % (seed, shard))
     for i in range(NRANDOM_STREAMS[tier] // nshards):
-        units, kinds = random_stream(rnd)
-        yield {'origin': 'random', 'limit': rnd.choice([None, LIMIT, LIMIT]), 'kinds': kinds,
+        audit = i % 3 == 2
+        units, kinds = random_stream(rnd, audit)
+        limit = rnd.choice([None, LIMIT, LIMIT, 'near'] if audit or i % 3 == 1 else [None, LIMIT, LIMIT])
+        if limit == 'near':         # somewhere around the wire size of one of the bodies
+            sizes = [len(d) for k, d in units if k == 'b']
+            limit = max(1, rnd.choice(sizes) + rnd.choice([-9, -5, -4, -3, -2, -1, 0, 0, 1, 2]))
+        yield {'origin': 'random-audit' if audit else 'random', 'limit': limit, 'kinds': kinds,
                'layout': 'random', 'units': units, 'rs': rnd.randrange(1 << 30), 'nrand': NRANDOM_CUTS}
 
 
@@ -252,6 +442,8 @@ class Handlers(object):
         self._rec('MAIL', reply, address, params)
         if address.startswith('nomail'):
             reply.code, reply.message = '550', '5.7.1 sender refused'
+        elif address.startswith('boom'):
+            raise RuntimeError('handler failure scripted for ' + address)
         else:
             self.sender = address
 
@@ -259,6 +451,8 @@ class Handlers(object):
         self._rec('RCPT', reply, address, params)
         if address.startswith('bad'):
             reply.code, reply.message = '550', '5.1.1 no such user'
+        elif address.startswith('die'):
+            reply.code, reply.message = '421', '4.7.0 too many recipients, closing'
 
     def DATA(self, reply):
         self._rec('DATA', reply)
@@ -269,6 +463,8 @@ class Handlers(object):
         self._rec('HAVE_DATA', reply, data, type(err).__name__ if err is not None else None)
         if err is not None:
             reply.code, reply.message = '552', '5.3.4 message too big'
+        elif self.sender.startswith('bye'):
+            reply.code, reply.message = '421', '4.3.0 closing after this message'
 
     def RSET(self, reply):
         self._rec('RSET', reply)
@@ -331,7 +527,7 @@ def run_reference(units, limit):
                 if not last.startswith(b'354 '):
                     # DATA was refused: the client's body lines arrive as ordinary lines
                     st['lines'] = lf_lines(data)
-                    seg = st['lines'].pop(0)
+                    seg = st['lines'].pop(0) if st['lines'] else b''
                     st['as_lines'] += 1
         else:
             return                      # stream exhausted -> eof
@@ -351,7 +547,7 @@ def run_segments(segs, limit):
     return r
 
 
-def cutsets(stream, units, rnd, nrand):
+def cutsets(stream, units, rnd, nrand, limit=None, allpairs=True):
     """Yield (label, sorted cut tuple); duplicates removed by the caller."""
     n = len(stream)
     yield 'burst', ()
@@ -375,6 +571,30 @@ def cutsets(stream, units, rnd, nrand):
             pair = tuple(sorted(set(p for p in pair if 0 < p < n)))
             if pair:
                 yield 'cut2-body', pair
+    # audit: recv() boundaries at / next to the byte at which the SIZE limit is crossed, alone and combined with
+    # the boundaries of the body; for a short body every pair of cuts from just before it to the end of the
+    # line that follows it (at most 5 bytes behind it; for one random session in four)
+    for (a, b) in bodies:
+        nxt = stream.find(b'\n', b) + 1 or n
+        if limit and a + limit <= min(nxt, b + 12) + 2:
+            near = [a + limit + d for d in (-1, 0, 1, 2)]
+            for p in near:
+                if 0 < p < n:
+                    yield 'cut-limit', (p,)
+            for p in near:
+                for q in near + [a, a + 1, b - 3, b - 2, b - 1, b, nxt]:
+                    pair = tuple(sorted(set(c for c in (p, q) if 0 < c < n)))
+                    if len(pair) == 2:
+                        yield 'cut-limit', pair
+            for q in (b - 2, b - 1, b):
+                tri = tuple(sorted(set(c for c in (a, a + limit, q) if 0 < c < n)))
+                if len(tri) == 3:
+                    yield 'cut-limit', tri
+        if allpairs and b - a <= 18:
+            lo, hi = max(1, a - 2), min(n - 1, nxt + 1, b + 5)
+            for p in range(lo, hi + 1):
+                for q in range(p + 1, hi + 1):
+                    yield 'cut2-all-short-body', (p, q)
     for k in range(nrand):
         if k % 2 == 0 and n > 2:
             cnt = rnd.randint(1, min(n - 1, 8))
@@ -404,12 +624,19 @@ def _toobig(e):
     return _hd(e) and e[-1] == 'MessageTooBig'
 
 
-def classify(limit, any_over, has_empty, ref, var):
+def classify(limit, any_over, has_empty, ref, var, extra_tag=''):
     """Root-cause class of one differing segmentation; decided from the case stratum (limit configured?
     any body over the limit?) and from where the two callback traces first part."""
     d = first_diff(ref.trace, var.trace)
     clause = 'callback-trace-differs' if d is not None else 'replies-differ-trace-equal'
     tag = '+empty-body' if has_empty else ''
+    tag += extra_tag
+    mech, d = _classify(limit, any_over, tag, clause, ref, var, d)
+    # a stream of an audit stratum (hostile lines, open tail, handler-closed session) is its own witness class
+    return (mech + extra_tag if mech.startswith('size-limit/') else mech), d
+
+
+def _classify(limit, any_over, tag, clause, ref, var, d):
     if not limit:
         return 'unclassified/no-size-limit%s/%s' % (tag, clause), d
     er = ref.trace[d] if d is not None and d < len(ref.trace) else None
@@ -420,8 +647,8 @@ def classify(limit, any_over, has_empty, ref, var):
         if _toobig(er) and not _toobig(ev):
             return M_PREBUF, d            # a body the reference refused as too big is accepted
     common = ref.trace if d is None else ref.trace[:d]
-    if any(_toobig(e) for e in common) or _toobig(er) or (any_over and _toobig(ev)):
-        return M_NORESYNC, d              # both saw MessageTooBig, what follows differs
+    if d is not None and (any(_toobig(e) for e in common) or _toobig(er) or (any_over and _toobig(ev))):
+        return M_NORESYNC, d              # both saw MessageTooBig, the callbacks that follow differ
     if not any_over and any(_toobig(e) for e in var.trace):
         return M_ACCOUNT, d               # no body over the limit in the stream, yet a 552
     return 'unclassified/size-limit-configured%s/%s' % (tag, clause), d
@@ -442,7 +669,7 @@ def run_case(case, R):
     flags = [body_flags(d[:-len(EOD)], limit) for k, d in units if k == 'b']
     any_over = any(f[1] for f in flags)
     has_empty = any(f[0] for f in flags)
-    last_body = max(i for i, (k, _) in enumerate(units) if k == 'b')
+    last_body = max([i for i, (k, _) in enumerate(units) if k == 'b'] or [len(units)])
     cmd_after_body = last_body < len(units) - 1
     shape = (limit, case.get('layout'), tuple(case.get('kinds', ())),
              tuple(re.sub(br'[0-9]+', b'#', d.strip()) if k == 'c' else b'BODY' for k, d in units))
@@ -466,6 +693,53 @@ def run_case(case, R):
     if cmd_after_body and all_fed:
         R.hit('ref-command-after-body')
     R.hit('ref-end/' + ref.end.split(':')[0])
+    # --- audit strata: what the reference run really went through
+    hostile_lines = set(HOSTILE.values())
+    open_body = units[-1][0] == 'b' and not units[-1][1].endswith(b'\n' + EOD) and units[-1][1] != EOD
+    open_tail = open_body or (units[-1][0] == 'c' and not units[-1][1].endswith(b'\n'))
+    n_hostile = sum(1 for k, d in units if k == 'c' and d in hostile_lines)
+    fed = list(ref.fed)
+    for i, (k, d) in enumerate(units):
+        if k == 'c' and d in hostile_lines and d in fed:
+            R.hit('ref-hostile-line-consumed')
+            R.observe('hostile-line-consumed', d[:40])
+            if i and units[i - 1][0] == 'b' and units[i - 1][1] in fed:
+                R.hit('ref-hostile-line-directly-behind-eod')
+        if len(d) > 4096 and d in fed:
+            R.hit('ref-unit-larger-than-recv-size')
+    if open_tail and all_fed:
+        R.hit('ref-open-tail')
+        if open_body and units[-1][1] in fed + [b''] and ref.end == 'connection-lost':
+            R.hit('ref-stream-ends-inside-message')
+    if not all_fed:
+        R.hit('ref-session-ended-before-stream-end')
+    if b'\r\n421 4.7.0 too many recipients' in ref.replies or b'\r\n421 4.3.0 closing after' in ref.replies:
+        R.hit('ref-session-closed-by-handler-421')
+    if ref.end == 'exception:RuntimeError':
+        R.hit('ref-session-closed-by-handler-exception')
+    if limit:
+        for k, d in units:
+            if k != 'b' or d not in fed:
+                continue
+            if len(d) == limit:
+                R.hit('ref-limit-exactly-at-end-of-eod')
+            elif len(d) > limit:
+                last, first = d[limit - 1:limit], d[limit:limit + 1]     # last byte within / first byte over
+                if limit > len(d) - len(EOD):
+                    where = 'in-eod-line'
+                elif last == b'\r' and first == b'\n':
+                    where = 'between-cr-and-lf'
+                elif last == b'\n':
+                    where = 'after-line'
+                else:
+                    where = 'mid-line'
+                R.hit('ref-limit-crossed/' + where)
+                R.observe('limit-crossing', (where, len(d) - limit if len(d) - limit < 6 else 6, last, first))
+    # one tag at most (the most specific audit stratum the stream belongs to), so that one root cause does not
+    # fan out into a mechanism per combination
+    extra_tag = ([t for t, on in (('+open-tail', open_tail), ('+hostile-lines', n_hostile),
+                                  ('+handler-close', ref.end == 'exception:RuntimeError' or
+                                   b'\r\n421 4.' in ref.replies)) if on] + [''])[0]
     R.observe('ref-reply-code-sequence', tuple(reply_codes(ref.replies)))
     R.observe('ref-callback-name-sequence', tuple(e[0] for e in ref.trace))
     if cmd_after_body and any(f[0] or f[1] or f[2] for f in flags) and case['rs'] % 7 == 0:
@@ -477,7 +751,8 @@ def run_case(case, R):
     seen = set()
     bad = {}        # mechanism -> [count, labels, best witness]
     ncmp = 0
-    for label, cuts in cutsets(stream, units, rnd, case.get('nrand', NRANDOM_CUTS)):
+    allpairs = not str(case.get('origin', '')).startswith('random') or case['rs'] % 4 == 0
+    for label, cuts in cutsets(stream, units, rnd, case.get('nrand', NRANDOM_CUTS), limit, allpairs):
         if cuts in seen:
             continue
         seen.add(cuts)
@@ -491,7 +766,7 @@ def run_case(case, R):
         R.count('segmentations-compared/' + label)
         if var.replies == ref.replies and var.trace == ref.trace:
             continue
-        mech, d = classify(limit, any_over, has_empty, ref, var)
+        mech, d = classify(limit, any_over, has_empty, ref, var, extra_tag)
         b = bad.setdefault(mech, [0, {}, None])
         b[0] += 1
         b[1][label] = b[1].get(label, 0) + 1
